@@ -61,83 +61,131 @@ class Machine:
     pass
 
 
+class _StateModel:
+    def __init__(self, rec, name, factory):
+        self.rec, self.name, self.factory = rec, name, factory
+
+    def upon(self, inp, nodata=False):
+        return _UponModel(self.rec, self, inp, nodata)
+
+
+class _UponModel:
+    def __init__(self, rec, old, inp, nodata):
+        self.rec, self.old, self.inp, self.nodata = rec, old, inp, nodata
+
+    def to(self, state):
+        if not isinstance(state, _StateModel):
+            raise AnalysisError("C58: .to() target is not a declared state")
+        return _RegistrarModel(self.rec, self.old, self.inp, state, self.nodata)
+
+    def loop(self):
+        return _RegistrarModel(self.rec, self.old, self.inp, self.old, self.nodata)
+
+
+class _RegistrarModel:
+    def __init__(self, rec, old, inp, new, nodata):
+        self.rec, self.old, self.inp, self.new, self.nodata, self.done = rec, old, inp, new, nodata, False
+        rec.registrars.append(self)
+
+    def _finish(self, impl):
+        if self.done:
+            raise AnalysisError("C58: transition registered twice")
+        self.done = True
+        name = getattr(getattr(self.inp, "node", None), "name", None)
+        if name is None:
+            raise AnalysisError("C58: upon() argument is not a method of the input protocol")
+        self.rec.transitions.append((self.old, name, self.new, bool(self.nodata), impl))
+
+    def __call__(self, impl):
+        self._finish(impl)
+        return impl
+
+    def returns(self, value):
+        self._finish(None)
+
+
+class _BuilderModel:
+    """Records what makeMachine declares on automat's TypeMachineBuilder."""
+
+    def __init__(self, *args):
+        self.states, self.transitions, self.registrars = [], [], []
+
+    def state(self, name, factory=None):
+        st = _StateModel(self, name, factory)
+        self.states.append(st)
+        return st
+
+    def build(self):
+        return "<machine>"
+
+
 def extract(ctx):
+    """The declaration is obtained by *interpreting* makeMachine against a recording model of the builder, so loops over
+    constant tables, helper functions and decorators are all read the same way."""
     mk = ctx.func(CS, "makeMachine")
     proto = ctx.cls(CS, "_Client")
+    mod = ctx.mod(CS)
     inputs = list(methods(proto).keys())
     ctx.need(inputs, "_Client input protocol methods")
+    made = []
+
+    def builder(*a):
+        b = _BuilderModel()
+        made.append(b)
+        return b
+    it = Interp({}, budget=100000)
+    it.load(mod)
+    it.globals.update({"TypeMachineBuilder": builder, "pep614": lambda x: x})
+    try:
+        it.globals["makeMachine"]()
+    except AnalysisError:
+        raise
+    except Exception as e:
+        raise AnalysisError(f"C58: makeMachine cannot be interpreted: {type(e).__name__}: {e}")
+    ctx.need(len(made) == 1, "exactly one TypeMachineBuilder(...) in makeMachine")
+    rec = made[0]
+    for r in rec.registrars:
+        if not r.done:
+            raise AnalysisError(f"C58: incomplete transition from {r.old.name}")
     m = Machine()
     m.func = mk
     m.inputs = inputs
     m.public = [i for i in inputs if not i.startswith("_")]
-    m.states = {}      # var -> (name, factory name)
     m.order = []
-    m.trans = {}       # (state name, input) -> dict
-    m.funcs = {n.name: n for n in mk.body if isinstance(n, ast.FunctionDef)}
-    builder = None
-    for st in mk.body:
-        if isinstance(st, ast.Assign) and isinstance(st.value, ast.Call) and call_name(st.value) == "TypeMachineBuilder" and isinstance(st.targets[0], ast.Name):
-            builder = st.targets[0].id
-    ctx.need(builder, "machine = TypeMachineBuilder(...)")
-
-    def add_transition(expr, body, where):
-        root, steps = _chain(expr)
-        names = [s[0] for s in steps]
-        if "upon" not in names:
-            return False
-        if not (isinstance(root, ast.Name) and root.id in m.states):
-            raise AnalysisError(f"C58: transition on an unknown state object: {src(expr)[:80]}")
-        up = steps[names.index("upon")][1]
-        ctx.need(up.args and isinstance(up.args[0], ast.Attribute) and src(up.args[0].value) == proto.name, f"upon(_Client.<input>) in {src(expr)[:60]}")
-        inp = up.args[0].attr
+    m.trans = {}
+    m.factory = {}
+    m.funcs = {n.name: n for n in mod.tree.body if isinstance(n, ast.FunctionDef)}
+    m.funcs.update({n.name: n for n in ast.walk(mk) if isinstance(n, ast.FunctionDef) and n is not mk})
+    used = {id(t[0]) for t in rec.transitions} | {id(t[2]) for t in rec.transitions}
+    for st in rec.states:
+        if st.name in m.factory and id(st) not in used:
+            continue   # a state object declared again and never used (rebound variable)
+        if st.name in m.factory and any(id(x) in used for x in rec.states if x.name == st.name and x is not st):
+            raise AnalysisError(f"C58: two live state objects named {st.name}")
+        fac = None
+        if st.factory is not None:
+            node = getattr(st.factory, "node", None)
+            if not isinstance(node, ast.FunctionDef):
+                raise AnalysisError(f"C58: factory of state {st.name} is not a function")
+            fac = node.name
+            m.funcs.setdefault(fac, node)
+        m.factory[st.name] = fac
+        if st.name not in m.order:
+            m.order.append(st.name)
+    for old, inp, new, nodata, impl in rec.transitions:
         if inp not in inputs:
             raise AnalysisError(f"C58: unknown input {inp}")
-        nodata = any(k.arg == "nodata" and isinstance(k.value, ast.Constant) and k.value.value is True for k in up.keywords) or \
-            (len(up.args) > 1 and isinstance(up.args[1], ast.Constant) and up.args[1].value is True)
-        s_name = m.states[root.id][0]
-        if "loop" in names:
-            t_name = s_name
-        elif "to" in names:
-            to = steps[names.index("to")][1]
-            ctx.need(to.args and isinstance(to.args[0], ast.Name) and to.args[0].id in m.states, f".to(<state>) in {src(expr)[:60]}")
-            t_name = m.states[to.args[0].id][0]
-        else:
-            raise AnalysisError(f"C58: transition without .to()/.loop(): {src(expr)[:80]}")
-        if body is None and "returns" not in names:
-            raise AnalysisError(f"C58: transition neither decorates a function nor .returns(): {src(expr)[:80]}")
-        key = (s_name, inp)
+        key = (old.name, inp)
         if key in m.trans:
             raise AnalysisError(f"C58: transition {key} declared twice")
-        m.trans[key] = {"src": s_name, "inp": inp, "dst": t_name, "nodata": nodata, "body": body, "node": expr}
-        return True
-
-    for st in mk.body:
-        if isinstance(st, ast.Assign) and isinstance(st.value, ast.Call) and isinstance(st.value.func, ast.Attribute) \
-                and st.value.func.attr == "state" and src(st.value.func.value) == builder:
-            c = st.value
-            ctx.need(c.args and isinstance(c.args[0], ast.Constant) and isinstance(st.targets[0], ast.Name), "machine.state('<name>'[, factory])")
-            fac = c.args[1].id if len(c.args) > 1 and isinstance(c.args[1], ast.Name) else None
-            if len(c.args) > 1 and fac not in m.funcs:
-                raise AnalysisError(f"C58: state factory is not a local function: {src(c)}")
-            name = c.args[0].value
-            m.states[st.targets[0].id] = (name, fac)
-            if name not in m.order:
-                m.order.append(name)
-        elif isinstance(st, ast.Expr) and isinstance(st.value, ast.Call):
-            v = st.value
-            if isinstance(v.func, ast.Call) and len(v.args) == 1 and isinstance(v.args[0], ast.Name) and v.args[0].id in m.funcs:
-                add_transition(v.func, m.funcs[v.args[0].id], st)   # registrar(impl) written as a plain call
-            else:
-                add_transition(v, None, st)
-        elif isinstance(st, ast.FunctionDef):
-            for d in st.decorator_list:
-                if isinstance(d, ast.Call) and call_name(d) == "pep614" and d.args:
-                    add_transition(d.args[0], st, st)
-                elif isinstance(d, ast.Call):
-                    add_transition(d, st, st)
-    m.factory = {}
-    for var, (name, fac) in m.states.items():
-        m.factory[name] = fac   # a later duplicate declaration of the same name wins, like the rebinding of the variable
+        body = None
+        if impl is not None:
+            body = getattr(impl, "node", None)
+            if not isinstance(body, ast.FunctionDef):
+                raise AnalysisError(f"C58: transition body of {key} is not a function")
+            m.funcs.setdefault(body.name, body)
+        m.trans[key] = {"src": old.name, "inp": inp, "dst": new.name, "nodata": nodata, "body": body, "node": None}
+    ctx.need(m.order, "declared states")
     m.initial = m.order[0]
     return m
 
@@ -276,7 +324,9 @@ def model_core(mod, funcs, policy=None):
     it.globals.update({"Deferred": Mock("Deferred", log), "succeed": Mock("succeed", log), "fail": Mock("fail", log), "maybeDeferred": Mock("maybeDeferred", log),
                        "CancelledError": CancelledErrorModel, "Failure": Mock("Failure", log), "_DisconnectFactory": Mock("_DisconnectFactory", log),
                        "Logger": Mock("Logger", log), "_goodEnoughRandom": lambda: 0.0})
-    it.load(mod, only={"_Core"})
+    mocks = dict(it.globals)
+    it.load(mod)
+    it.globals.update({k: v for k, v in mocks.items() if isinstance(v, Mock) or k in ("CancelledError", "_goodEnoughRandom")})
     if "_Core" not in it.globals:
         raise AnalysisError("C58: class _Core not found")
     core = it.globals["_Core"](Mock("endpoint", log), Mock("factory", log), policy or (lambda n: ("DELAY", n)), Mock("clock", log), None)
